@@ -74,7 +74,8 @@ class MirrorRun:
     def cover(self, steps, edge=False, crash=False, avoid=True, timeout=1500):
         """Exhaustive TLC run exporting one behaviour per distinct state (edge=False) or per distinct
         (state, event) pair (edge=True); returns the maximal behaviours, the TLC result and the number exported."""
-        res = self.tlc("Mirror_edgecover.cfg" if edge else "Mirror_cover.cfg", workers=8, timeout=timeout,
+        cfg = "Mirror_edge2cover.cfg" if edge == 2 else ("Mirror_edgecover.cfg" if edge else "Mirror_cover.cfg")
+        res = self.tlc(cfg, workers=8, timeout=timeout,
                        defines={"MaxSteps": steps, "AvoidPanics": "TRUE" if avoid else "FALSE", "AllowCrash": "TRUE" if crash else "FALSE"})
         behs = self.behaviours(res)
 
